@@ -1,47 +1,9 @@
 import Rawr.Proofs.MakeMoveAbsC
+import Rawr.Proofs.MakeMoveAbsV1
 /-! C02, specification side: `Spec.apply` unfolded field by field, the castling-right bookkeeping in
 mover-relative terms, and the refinement theorem for non-castling moves. -/
 namespace Rawr.MM
-open Rawr Rawr.Position Rawr.Spec Rawr.ZH
-
-/-! ### `Spec.apply`, unfolded -/
-
-/-- what remains of one castling right after a non-castling move (the local `lostBy` of `Spec.apply`). -/
-def lostCore (r : Option Nat) (mover : Bool) (hr : Int) (src dst : Nat) (kingMoved : Bool) : Option Nat :=
-  match r with
-  | none => none
-  | some f => if ((mover && kingMoved) || src == sq f hr || dst == sq f hr) = true then none else some f
-
-theorem apply_normal {a : APos} {s t : Nat} {promo : Option Kind} {pc : Piece} (h : a.board s = some pc) :
-    apply a (.normal s t promo) =
-      { board := setSq (if (pc.kind == .pawn && file s != file t && !(a.board t).isSome) = true
-            then setSq (setSq a.board s none) (sq (file t) (rank s)) none else setSq a.board s none) t
-            (some (match promo with | some k => ⟨pc.white, k⟩ | none => pc)),
-        whiteToMove := !a.whiteToMove,
-        wK := lostCore a.wK (true == a.whiteToMove) (homeRank true) s t (pc.kind == .king),
-        wQ := lostCore a.wQ (true == a.whiteToMove) (homeRank true) s t (pc.kind == .king),
-        bK := lostCore a.bK (false == a.whiteToMove) (homeRank false) s t (pc.kind == .king),
-        bQ := lostCore a.bQ (false == a.whiteToMove) (homeRank false) s t (pc.kind == .king),
-        ep := if (pc.kind == .pawn && (rank t - rank s).natAbs == 2) = true
-          then some (sq (file s) ((rank s + rank t) / 2)) else none,
-        half := if (pc.kind == .pawn || (a.board t).isSome ||
-          (pc.kind == .pawn && file s != file t && !(a.board t).isSome)) = true then 0 else a.half + 1,
-        full := if a.whiteToMove = true then a.full else a.full + 1 } := by
-  simp only [apply, h]
-  rfl
-
-theorem apply_castle {a : APos} {ks : Bool} {rf k : Nat} {l : List Nat}
-    (hr : right a a.whiteToMove ks = some rf) (hk : kingSquares a.board a.whiteToMove = k :: l) :
-    apply a (.castle ks) =
-      { board := setSq (setSq (setSq (setSq a.board k none) (sq rf (homeRank a.whiteToMove)) none)
-            (sq (if ks = true then 6 else 2) (homeRank a.whiteToMove)) (some ⟨a.whiteToMove, .king⟩))
-            (sq (if ks = true then 5 else 3) (homeRank a.whiteToMove)) (some ⟨a.whiteToMove, .rook⟩),
-        whiteToMove := !a.whiteToMove,
-        wK := if a.whiteToMove = true then none else a.wK, wQ := if a.whiteToMove = true then none else a.wQ,
-        bK := if a.whiteToMove = true then a.bK else none, bQ := if a.whiteToMove = true then a.bQ else none,
-        ep := none, half := a.half + 1,
-        full := if a.whiteToMove = true then a.full else a.full + 1 } := by
-  simp only [apply, hr, hk]
+open Rawr Rawr.Position Rawr.Spec Rawr.ZH Rawr.SV
 
 /-! ### `abs`, field by field -/
 
@@ -185,7 +147,7 @@ theorem nc_isEp (f : NCFacts p m i c cap epc pr)
     nc_dst_none f]
 
 /-- the rank relation of an en-passant capture, from the pawn geometry. -/
-theorem nc_ep_rank (f : NCFacts p m i c cap epc pr)
+theorem nc_ep_rank (_f : NCFacts p m i c cap epc pr)
     (hepcE : epc = (i == 0 && fileOf m.src != fileOf m.dst && (p.pieceOn m.dst).isNone))
     (hG : i = 0 → rankOf m.dst = rankOf m.src + 1 ∨ m.dst = m.src + 16) (hE : epc = true) :
     m.dst / 8 = m.src / 8 + 1 := by
